@@ -280,7 +280,7 @@ func runCheck(id, tier, only string, keep bool) int {
 	if only != "" {
 		var js []Job
 		for _, j := range plan.Jobs {
-			if strings.Contains(j.Harness, only) {
+			if strings.Contains(j.Harness+"["+j.Params+"]", only) {
 				js = append(js, j)
 			}
 		}
@@ -457,7 +457,11 @@ func runCheck(id, tier, only string, keep bool) int {
 	ev["violations"] = len(newVios)
 	cov := ev["coverage"].(map[string]interface{})
 	cov["known_findings_seen"] = len(printedKnown)
-	writeEvidence(id, ev)
+	if only == "" {
+		writeEvidence(id, ev)
+	} else {
+		fmt.Println("(partial run with --only: evidence file not rewritten)")
+	}
 	if len(nondet) > 0 {
 		for _, n := range nondet {
 			fmt.Fprintf(os.Stderr, "NONDETERMINISM %s\n", n)
